@@ -201,6 +201,51 @@ def multi_case(cid: str, rng: random.Random) -> dict:
                       "train_time": r_time, "use": use, "gamma": gamma}}
 
 
+def sampling_case(cid: str, rng: random.Random) -> dict | None:
+    """A contracting linear system (damped oscillator or decay, linear state feedback) simulated with few and with
+    many rows; the states at the common times, as exact dyadic numbers."""
+    from moptipyapps.dynamic_control import ode
+    osc = rng.random() < 0.7
+    damp, om = rng.uniform(0.05, 0.6), rng.uniform(0.8, 3.0)
+    k1 = rng.uniform(-0.3, 0.3)
+
+    def eq(state, _t, control, out):
+        if osc:
+            out[0] = state[1]
+            out[1] = -om * om * state[0] - 2.0 * damp * state[1] + control[0]
+        else:
+            out[0] = -damp * state[0] + control[0]
+            out[1] = -om * state[1]
+
+    def ctrl(state, _t, params, dest):
+        dest[0] = params[0] * state[0]
+    params = np.array([k1 if not osc else -abs(k1)])
+    start = np.array([rng.uniform(-1, 1), rng.uniform(-1, 1)])
+    T = rng.choice([2.0, 5.0, 10.0, 20.0])
+    kc = rng.choice([2, 3, 4, 7, 12])
+    mult = rng.choice([16, 40, 100])
+    with np.errstate(all="ignore"):
+        coarse = ode.run_ode(start.copy(), eq, ctrl, params, 1, kc + 1, T)
+        fine = ode.run_ode(start.copy(), eq, ctrl, params, 1, kc * mult + 1, T)
+    if len(coarse) != kc + 1 or len(fine) != kc * mult + 1:
+        return None       # a failure row: judged by the run cases
+    from fractions import Fraction
+
+    def fx(v: float) -> dict:
+        return core.sbig(int(round(Fraction(float(v)) * (1 << 60))))
+    pairs = []
+    for i in range(1, kc + 1):
+        if abs(coarse[i, -1] - fine[i * mult, -1]) > 1e-9 * T:
+            return None   # (the two time grids do not share this point: nothing to compare)
+        for d in range(2):
+            pairs.append({"a": fx(coarse[i, d]), "b": fx(fine[i * mult, d]), "coarse": repr(float(coarse[i, d])),
+                          "fine": repr(float(fine[i * mult, d])), "t": repr(float(coarse[i, -1]))})
+    m = 1.0 + float(np.max(np.abs(fine[:, 0:2])))
+    return {"id": cid, "kind": "sampling", "pairs": pairs, "m": fx(m),
+            "setup": {"oscillator": osc, "damping": damp, "omega": om, "feedback": float(params[0]), "T": T,
+                      "rows_coarse": kc + 1, "rows_fine": kc * mult + 1, "start": start.tolist()}}
+
+
 def describe_case(cid: str, rng: random.Random, workdir) -> dict:
     """System.describe_system on an own system whose test and training budgets differ; the results table is judged
     line by line against direct run_ode / j_from_ode / t_from_ode calls with the budget of the line's group."""
@@ -392,6 +437,14 @@ def run(prop: str, tier: str, seed: int) -> int:
         cases.append(multi_case(f"multi-{k}", rng))
     rep.family("multi-run + results log", n_mu, n_mu)
     rep.nontrivial += n_mu
+    n_sa = 0
+    for k in range({"quick": 60, "thorough": 500}[tier]):
+        sc = sampling_case(f"sampling-{k}", rng)
+        if sc is not None:
+            cases.append(sc)
+            n_sa += 1
+    rep.family("coarse-vs-fine sampling of contracting linear systems", n_sa, n_sa)
+    rep.nontrivial += n_sa
     n_de = {"quick": 6, "thorough": 40}[tier]
     dwork = tlc.work_dir("describe")
     try:
